@@ -533,3 +533,111 @@ def r07_9(ctx):
         cfgs = cfgs + [rp.Config(cache_size=F(2)), rp.Config(cache_size=F(3), dt=F(1, 8))]
     _report(ctx, "R07.9", call, per_config(model, ctx.tier, "_cfg_r07_9", cfgs))
     ctx.floor("R07.9", 2 if light() else 4)
+
+
+# ------------------------------------------------------------------------------------------------ R03.10 / R06.11 (wrappers)
+DERIVED = "torchsde/_brownian/derived.py"
+
+
+def _wrapper(session, model, cname, **kw):
+    from ..interp import Obj
+    cls = model.cls(DERIVED, cname)
+    me = Obj(cname, cls=cls)
+    session.it.call_function(model.lookup_method(cls, "__init__"), [me], kw)
+    call = model.lookup_method(cls, "__call__")
+    return me, (lambda *a, **k: session.it.call_function(call, [me] + list(a), k))
+
+
+def r03_10(ctx):
+    """'... and equally through BrownianPath, BrownianTree and ReverseBrownian': the wrappers are built by their own
+    constructors and queried by replay.  Increments are additive over triples (after other queries), point evaluations are
+    consistent with increments (bm(t) - bm(s) == bm(s, t), bm(t0) == w0), a repeated query returns the same value, and
+    ReverseBrownian returns, for (-tb, -ta), the increment of the base over (ta, tb) with U -> (tb - ta) W - U."""
+    rep, model = ctx.rep, ctx.model
+    rep.rule("R03.10", "replay through the wrappers' own constructors: BrownianTree, BrownianPath and ReverseBrownian are "
+                       "additive, consistent between point and interval evaluation, repeatable, and the reflection maps "
+                       "(W, U) as Chen's relation prescribes")
+    fi = model.lookup_method(model.cls(DERIVED, "BrownianTree"), "__call__")
+    rep.analysed(fi)
+    if skipped(ctx, "R03.10", fi):
+        return
+    W0 = nf.sym("W0")
+    makers = [("BrownianTree", dict(t0=F(0), w0=W0, t1=F(1), entropy=nf.sym("ENTROPY", True), tol=F(1, 1000))),
+              ("BrownianPath", dict(t0=F(0), w0=W0))]
+    hist = on_grid(rp.Config(tol=F(1, 1000)), HIST_ADAPTIVE[:6] + HIST_HALF_THEN_STEP)
+    triples = [tuple(on_grid(rp.Config(tol=F(1, 1000)), [tr])[0]) for tr in TRIPLES[:4]]
+    for cname, kw in makers:
+        ses = rp.Session(model)
+        construct0 = f"{fi.key}::R03.10::{cname}"
+        try:
+            me, q = _wrapper(ses, model, cname, **kw)
+            for ta, tb in hist:
+                q(ta, tb)
+            bad = []
+            for s_, u, t in triples:
+                w, w1, w2 = q(s_, t), q(s_, u), q(u, t)
+                if not nf.equal(Rat.lift(w), Rat.lift(w1) + Rat.lift(w2)):
+                    bad.append(f"W({s_},{t}) != W({s_},{u}) + W({u},{t})")
+                if not nf.equal(Rat.lift(q(t)) - Rat.lift(q(s_)), Rat.lift(w)):
+                    bad.append(f"bm({t}) - bm({s_}) != bm({s_}, {t})")
+                if not rp.same(q(s_, t), w):
+                    bad.append(f"bm({s_}, {t}) asked again differs")
+            if not nf.equal(Rat.lift(q(F(0))), W0):
+                bad.append("bm(t0) != w0")
+        except SimRaise as e:
+            bad = [f"a query raises {e.exc_name}: {e.message}"]
+        rep.check(not bad, "R03.10", astq.loc(fi), construct0, f"{cname}: {'; '.join(bad[:3])}",
+                  "additive, point / interval consistent, repeatable")
+    # ReverseBrownian over a BrownianInterval with space-time Levy area
+    ses = rp.Session(model)
+    base = ses.build(rp.Config())
+    from ..interp import Obj
+    rcls = model.cls(DERIVED, "ReverseBrownian")
+    rev = Obj("ReverseBrownian", cls=rcls)
+    ses.it.call_function(model.lookup_method(rcls, "__init__"), [rev, base], {})
+    rcall = model.lookup_method(rcls, "__call__")
+    bad = []
+    for ta, tb in ((F(1, 4), F(1, 2)), (F(3, 10), F(7, 10)), (F(0), F(1))):
+        W, U = ses.query(base, ta, tb, return_U=True)
+        Wr, Ur = ses.it.call_function(rcall, [rev, -tb, -ta], {"return_U": True})
+        if not nf.equal(Rat.lift(Wr), Rat.lift(W)):
+            bad.append(f"W_rev(-{tb}, -{ta}) != W({ta}, {tb})")
+        if not nf.equal(Rat.lift(Ur), (tb - ta) * Rat.lift(W) - Rat.lift(U)):
+            bad.append(f"U_rev(-{tb}, -{ta}) != ({tb} - {ta}) W - U")
+    rep.check(not bad, "R03.10", astq.loc(model.lookup_method(rcls, "__call__")), f"{fi.key}::R03.10::ReverseBrownian",
+              f"ReverseBrownian: {'; '.join(bad[:3])}", "W -> W, U -> (tb - ta) W - U on the reflected interval")
+    ctx.floor("R03.10", 3)
+
+
+def r06_11(ctx):
+    """'(and through BrownianTree) the value returned for an interval depends only on the entropy and options': two
+    BrownianTree objects with equal arguments, asked the probes after different histories, agree; and they agree with a
+    third built in the process in which the first two were used."""
+    rep, model = ctx.rep, ctx.model
+    rep.rule("R06.11", "replay through BrownianTree's own constructor: probe values do not depend on the history of other queries")
+    fi = model.lookup_method(model.cls(DERIVED, "BrownianTree"), "__call__")
+    rep.analysed(fi)
+    if skipped(ctx, "R06.11", fi):
+        return
+    grid = rp.Config(tol=F(1, 1000))
+    probes = on_grid(grid, PROBES[:7])
+    kw = dict(t0=F(0), w0=nf.sym("W0"), t1=F(1), entropy=nf.sym("ENTROPY", True), tol=F(1, 1000))
+    answers = []
+    ses0 = rp.Session(model)
+    for label, hist, ses in (("no other query", [], ses0), ("an adaptive-looking history first", HIST_ADAPTIVE + HIST_HALF_THEN_STEP, None),
+                             ("odd points first, probes in reverse order", HIST_ODD, None), ("in a used process", HIST_FWD_BWD[:6], ses0)):
+        ses = ses or rp.Session(model)
+        try:
+            me, q = _wrapper(ses, model, "BrownianTree", **kw)
+            for ta, tb in on_grid(grid, hist):
+                q(ta, tb)
+            order = list(reversed(probes)) if "reverse" in label else probes
+            got = {p: q(*p) for p in order}
+            answers.append((label, [got[p] for p in probes]))
+        except SimRaise as e:
+            rep.fail("R06.11", astq.loc(fi), f"{fi.key}::R06.11::{label}", f"BrownianTree: a query raises {e.exc_name}: {e.message}")
+    for label, a in answers[1:]:
+        rep.check(rp.same(answers[0][1], a), "R06.11", astq.loc(fi), f"{fi.key}::R06.11::{label}",
+                  f"BrownianTree: the probes' values with {label} differ from their values on a fresh object: the value of an "
+                  f"interval depends on what else was asked", "identical answers")
+    ctx.floor("R06.11", 3)
